@@ -577,7 +577,11 @@ func (group *Group) writev2RtmpSubSessions(bs net.Buffers) {
 		if session.IsFresh || session.ShouldWaitVideoKeyFrame {
 			continue
 		}
-		_ = session.Writev(bs)
+		// 注意，每个session需要各自独立的net.Buffers切片，因为底层写入时（net.Buffers.WriteTo）会修改切片内的元素，
+		// 多个session的写协程共用同一个底层数组会互相踩踏，导致部分session丢失数据
+		sbs := make(net.Buffers, len(bs))
+		copy(sbs, bs)
+		_ = session.Writev(sbs)
 	}
 }
 
